@@ -163,6 +163,13 @@ func c11(c *Ctx) {
 		}
 		hs = append(hs, c.fn(tr, "ClientStream.handleNonGRPCData"))
 		c.noExplicitPanics(hs)
+		// a frame for a stream the client does not know (already closed, never opened) is dropped: the looked-up stream is
+		// dereferenced only where the lookup is known to have found one
+		nUse := 0
+		for _, h := range hs {
+			nUse += c.NilCheckedUse(h, Callee(tr, "http2Client.getStream"), shortName(h)[len("internal/transport."):]+":unknown-stream-not-dereferenced")
+		}
+		c.Expect(nUse >= 6, nil, nil, "stream-lookup-uses", "fewer dereferencing uses of looked-up streams than on the reviewed tree")
 		// bytes chosen by the server reach these decoders on the reader goroutine (an unrecovered panic there kills the process):
 		// their index and slice expressions are in bounds (compiler prove pass or a dominating guard)
 		c.BoundsSafe(tr, c.fn(tr, "decodeGrpcMessage"), c.fn(tr, "decodeGrpcMessageUnchecked"), c.fn(tr, "decodeMetadataHeader"), c.fn(tr, "decodeBinHeader"), c.fn(tr, "isReservedHeader"), c.fn(tr, "isWhitelistedHeader"))
